@@ -247,5 +247,5 @@ var _ = kit.Register(kit.Prop[Case]{
 	Name: "StorageRevertAcrossTxs",
 	Rule: "same oracles as SnapshotRevert on histories concentrated on the storage journal across the transactions of one block: 2 contracts x 2 slots with a committed (mostly reopened) pre-state of non-zero slots, SSTOREs of values from {the slot's parent value, 0, 1, 2, 3}, nested snapshots and reverts of any live id, mostly Finalise-only transaction boundaries (IntermediateRoot / Commit rare), occasional self-destruct and re-creation; non-trivial = reverts a non-innermost snapshot or reverts in a transaction that is not the first of the state object; distinct = FNV-64 of the case JSON",
 	Gen:  genStorageCase, Run: runCase,
-	Quick: 3000, Thorough: 25000, Chunk: 500, MinNonTrivialPct: 35,
+	Quick: 6000, Thorough: 50000, Chunk: 500, MinNonTrivialPct: 12,
 })
